@@ -500,6 +500,19 @@ func slicesEqual(x, y any) (err error) {
 		_, xv, _ := derefPtr(xrv.Index(i).Type(), xrv.Index(i))
 		_, yv, _ := derefPtr(yrv.Index(i).Type(), yrv.Index(i))
 
+		// elements of an interface type (e.g. []any)
+		// are compared by what they hold; a nil one
+		// only matches another nil one.
+		if xv.Kind() == reflect.Interface && yv.Kind() == reflect.Interface {
+			if xv.IsNil() || yv.IsNil() {
+				if xv.IsNil() != yv.IsNil() {
+					err = errorf("Slice/array value mismatch")
+				}
+				continue
+			}
+			xv, yv = xv.Elem(), yv.Elem()
+		}
+
 		// Get primitives out of the way
 		var tried bool
 		if tried, err = primitivesEqual(xv, yv); tried {
